@@ -151,11 +151,18 @@ def main():
         ctx.close()
     violations = []
     known = load_known()
-    for jf in result.judge_failures:
+    seen_known, per_class = set(), {}
+    for jf in sorted(result.judge_failures, key=lambda j: len(j.get("rules", "")) + len(j.get("data", ""))):
         kf = props.match_known(prop, jf, known)
         if kf:
-            print("KNOWN-FINDING: property=%s %s" % (prop, kf["what"]))
+            if kf["id"] not in seen_known:
+                seen_known.add(kf["id"])
+                print("KNOWN-FINDING: property=%s %s" % (prop, kf["what"]))
             continue
+        cls = jf.get("class", "?")
+        per_class[cls] = per_class.get(cls, 0) + 1
+        if per_class[cls] > 3:
+            continue          # the smallest three inputs per failure class are enough as replays
         replay = vlib.write_replay(prop, jf)
         violations.append({"what": jf.get("what", "judge failure"), "replay": replay, "found_input": True})
     broken = list(pf)
